@@ -71,7 +71,8 @@ func altKeys(p *Prog, v ssa.Value) [][]string {
 		if u, ok := v.(*ssa.UnOp); ok && u.Op == token.MUL && d < 4 {
 			base, path := addrBase(u.X)
 			if a, isAlloc := base.(*ssa.Alloc); isAlloc {
-				if defs, entry := reachingStores(a, path, u); !entry && len(defs) > 1 {
+				// (a zero-initialised `var x T` that also reaches the load contributes the zero amount: no alternative)
+				if defs, entry := reachingStores(a, path, u); (!entry && len(defs) > 1) || (entry && len(defs) >= 1) {
 					for _, dd := range defs {
 						rest := path
 						if !dd.whole {
